@@ -37,11 +37,11 @@ def reset_serials() -> None:
     _serial = itertools.count(1)
 
 
-def reset_library_state() -> None:
+def reset_library_state(reset_fgd: bool = False) -> None:
     reset_serials()
     import sys
     fgd = sys.modules.get('srctools.fgd')
-    if fgd is not None:
+    if fgd is not None and reset_fgd:
         if hasattr(fgd, '_ENGINE_DB'):
             fgd._ENGINE_DB = None
     inst = sys.modules.get('srctools.instancing')
